@@ -50,7 +50,14 @@
 
 using namespace bloc;
 
+#ifdef VDRV_NOSAN
+/* a build without sanitizers (the gcc tree): nothing to ask */
+extern "C" int __lsan_do_recoverable_leak_check() { return 0; }
+extern "C" void __ubsan_get_current_report_data(const char **k, const char **m, const char **f, unsigned *l, unsigned *c, char **a)
+{ *k = *m = *f = ""; *l = *c = 0; *a = nullptr; }
+#else
 extern "C" int __lsan_do_recoverable_leak_check();
+#endif
 extern "C" void __ubsan_get_current_report_data(const char **OutIssueKind,
     const char **OutMessage, const char **OutFilename, unsigned *OutLine,
     unsigned *OutCol, char **OutMemoryAddr);
